@@ -314,8 +314,12 @@ void c03_case(Ctx& c, Rng& r) {
         const std::int64_t now_s = wnow / NS;
         static const std::int64_t fixed[] = {-100000, -1, 0, 1, 2};
         std::int64_t exp_s;
-        const auto ek = r.below(14);
-        if (ek < 5) exp_s = now_s + fixed[ek];
+        const auto ek = r.below(16);
+        // absolute instants far in the past, down to the smallest second the manifest codec can carry: "now - expiry" does
+        // not fit into 64-bit nanoseconds there
+        static const std::int64_t ancient[] = {-9223372036LL, -9223372035LL, -9000000000LL, -7500000000LL, -7400000000LL, -5000000000LL, -1LL, 0LL, 1LL};
+        if (ek >= 14) exp_s = ancient[r.below(9)];
+        else if (ek < 5) exp_s = now_s + fixed[ek];
         else if (ek == 5) exp_s = now_s + mn - 1;
         else if (ek == 6) exp_s = now_s + mn;
         else if (ek == 7) exp_s = now_s + mn + 1;
@@ -326,8 +330,10 @@ void c03_case(Ctx& c, Rng& r) {
         else exp_s = now_s + static_cast<std::int64_t>(r.below(static_cast<std::uint64_t>(mx + 100)));
         manifest.expires_at = std::chrono::system_clock::time_point{seconds(exp_s)};
         const auto uri = protocol::encode_manifest(manifest);
-        const std::int64_t remaining_ns = exp_s * NS - wnow;   // exp_s*NS fits: <= 9223372036e9
-        const bool must_reject = remaining_ns <= 0 || remaining_ns < mn * NS;
+        const __int128 remaining_wide = static_cast<__int128>(exp_s) * NS - wnow;   // exp_s*NS fits (|exp_s| <= 9223372036), the difference may not
+        const bool must_reject = remaining_wide <= 0 || remaining_wide < static_cast<__int128>(mn) * NS;
+        const std::int64_t remaining_ns = remaining_wide > INT64_MAX ? INT64_MAX : (remaining_wide < INT64_MIN ? INT64_MIN : static_cast<std::int64_t>(remaining_wide));
+        if (ek >= 14) c.note("arrivals.ancient-expiry");
         const auto before = derived_snapshot(*f.node);
         const auto kind = r.below(4);
         bool api_accept = false;
